@@ -36,6 +36,11 @@ M_ALPHA = [
     "A\u030angstro\u0308m",                               # 14 fully decomposed twin
     "zoo \U0001d518\U0001d52b\U0001d526 \U0001f600",     # 15 astral plane, maths alphanumerics
     "",                                                   # 16
+    EN12.replace(" ", "  ", 1),                           # 17 doubled space (BIP39 does not collapse whitespace)
+    EN12 + "\n",                                          # 18 trailing newline
+    " " + EN12,                                           # 19 leading space
+    EN12.replace(" ", "\t"),                              # 20 tab separated
+    EN12.upper(),                                         # 21 upper case (no case folding in BIP39)
 ]
 P_ALPHA = ["", "TREZOR", _NFC("p\u00e4ssw\u00f6rd"), _NFD("p\u00e4ssw\u00f6rd"), "\uff50\uff41\uff53\uff53", "pass", "\ufb01", "fi", " lead", "trail ",
            "\u212b", "A\u030a", "\U0001f600", "\u30e1\u30fc\u30c8\u30eb\u30ac\u30d0\u30f4\u30a1\u3071\u3070\u3050\u309e\u3061\u3062\u5341\u4eba\u5341\u8272",
